@@ -54,7 +54,7 @@ def planner_mc(ctx, consts, invs, emit=True, properties=(), workers=8, label="")
     ctx.cov["transitions"] += res["states"]
     ctx.cov["model_runs"].append({"module": "MCPlanner", "constants": consts, "invariants": invs + list(properties),
                                   "states_generated": res["states"], "distinct": res["distinct"], "wall_s": res["wall_s"],
-                                  "exhaustive": True})
+                                  "exhaustive": True, "action_counts": res["actions"]})
     return res
 
 
@@ -183,7 +183,7 @@ def exec_mc(ctx, name, invs, workers=8):
     ctx.cov["transitions"] += res["states"]
     ctx.cov["model_runs"].append({"module": "MCExec", "config": name, "constants": c, "invariants": list(invs),
                                   "states_generated": res["states"], "distinct": res["distinct"], "wall_s": res["wall_s"],
-                                  "exhaustive": True})
+                                  "exhaustive": True, "action_counts": res["actions"]})
 
 
 SHRED_INVS = {"C01": ["SInvC01", "SInvNoBorrowPanic"], "C02": ["SInvC02"], "C03": ["SInvC03"], "C04": ["SInvC04"],
